@@ -5,12 +5,12 @@ Require Extraction.
 Require ExtrOcamlBasic.
 From Coq Require Import List NArith String.
 From TG.Gen Require Import GenTokens GenAst GenGrammar.
-From TG.Model Require Import Chars Lexer Prep Tree ParserPrims GInterp AstAccess CoreAst AstToCore Scope Indexer Pipeline.
+From TG.Model Require Import Chars Lexer Prep Tree ParserPrims GInterp AstAccess CoreAst AstToCore TreeComplete Scope Indexer Pipeline.
 
 Extraction Language OCaml.
 Extraction "extract/bridge_core.ml"
   bytes msg_text
   parse_with grammar_prog grammar_entry
-  core_of_tree
+  core_of_tree tree_complete
   analyze an_files an_perrs an_cores an_core an_shape pf_path pf_len
   an_state an_diagnostics an_goto an_references s_bad.
